@@ -569,6 +569,10 @@ func (v *Verifier) specDeref(env *Env, a Val) Val {
 	case KRef:
 		pt := a.T.Underlying().(*types.Pointer).Elem()
 		return fr.loadObj(env.cur, a.A, pt)
+	case KInt, KBool, KStr, KSlice:
+		// a captured variable of a closure: inside the body its name already denotes the value (debug information),
+		// in the contract header it denotes the cell; "*x" is accepted for both
+		return a
 	}
 	encFail("spec: dereference of kind %v", a.K)
 	return Val{}
